@@ -92,6 +92,11 @@ def children(schedule, obs, menu, fault_kinds):
         for li, _dev, op, _args, st in obs.ledger:
             if li <= maxf or st < last_istep:
                 continue
+            if st == last_istep and last_pos[1] > 0:
+                # the last injection sits INSIDE callback `st` (after its j-th call_soon): an operation of that same
+                # callback may come before that point, and failing it would change the callback so that the point
+                # no longer exists.  Such pairs are covered with the injection at the next boundary instead.
+                continue
             kinds = [k for k in fault_kinds if k == "raise" or op in STATUS_OPS]
             if op in ("stop", "subscribe", "clear_sub", "pause", "resume"):
                 continue  # declared infallible in the fakes
